@@ -85,6 +85,21 @@ def run_one(rng, nd, cname, method, n, order, dim, gen_kind, full_output, via_se
         x = float(rng.uniform(0.3, 2.0)) if dim == 1 else rng.uniform(0.3, 2.0, size=dim)
     else:
         x = rng.uniform(0.3, 2.0, size=dim)
+    # "every x": negative coordinates (the nominal step is a function of |x|: -e <= x <= -1 is where a sign slip would show), mixed signs,
+    # an exact zero among the coordinates, large magnitudes
+    mode = int(rng.integers(0, 6))
+    if mode == 1:
+        x = -1.4 * x
+    elif mode == 2:
+        x = x * 1.5 * (rng.choice([-1.0, 1.0], size=dim) if dim > 1 or cname != 'Derivative' else float(rng.choice([-1.0, 1.0])))
+    elif mode == 3:
+        if np.ndim(x) == 0:
+            x = 0.0
+        else:
+            x = -x
+            x[int(rng.integers(0, dim))] = 0.0
+    elif mode == 4:
+        x = x * float(rng.choice([-1.0, 1.0])) * float(10.0 ** int(rng.integers(1, 5)))
     rec = {}
     orig = d._get_steps
 
@@ -122,7 +137,8 @@ def predicates(ctx, desc, cname, method, name_hint, x, steps, seen):
         if method in ('central', 'forward', 'backward') and np.any(im != 0):
             return ctx.violation('complex-argument:%s' % cname, 'a real-step method passes a complex argument', dict(desc))
         width = 2.0 * hmax * (1 + 1e-12)
-        if np.any(np.abs(dre) > width) or np.any(np.abs(im) > width):
+        # (x + k h is rounded to the grid of x: one ulp of |x| of slack on the real part)
+        if np.any(np.abs(dre) > width + 4 * 2.0 ** -52 * np.abs(xr)) or np.any(np.abs(im) > width):
             return ctx.violation('too-far:%s:%s' % (cname, method), 'an evaluation point differs from x by more than twice the largest step', dict(desc, point=re.tolist()))
         moved = int(np.sum((dre != 0) | np.any(im != 0, axis=1)))
         if cname in ('Gradient', 'Jacobian', 'Hessdiag') and moved > 1:
@@ -134,7 +150,7 @@ def predicates(ctx, desc, cname, method, name_hint, x, steps, seen):
         pts = [tuple(t[0] for t in p) for p in seen]
         disp = [tuple(np.array(p) - xr) for p in pts]
         for dv in disp:
-            if any(dv) and not any(np.allclose(np.array(dv), -np.array(e), rtol=1e-12, atol=0) for e in disp):
+            if any(dv) and not any(np.allclose(np.array(dv), -np.array(e), rtol=1e-12, atol=4 * 2.0 ** -52 * float(np.max(np.abs(xr)))) for e in disp):
                 return ctx.violation('central-unpaired:%s' % cname, 'a central evaluation point has no mirror image about x', dict(desc, displacement=list(dv)))
     return False
 
